@@ -1,0 +1,48 @@
+//go:build verif
+
+package keeper
+
+import (
+	"github.com/ExocoreNetwork/exocore/x/oracle/keeper/aggregator"
+	"github.com/ExocoreNetwork/exocore/x/oracle/keeper/cache"
+	"github.com/ExocoreNetwork/exocore/x/oracle/keeper/common"
+)
+
+// Verification hook (build tag verif, add-only).
+
+type VerifC14Mem struct {
+	Agc              aggregator.VerifC14Agc
+	AgcCheckTx       aggregator.VerifC14Agc
+	Cache            cache.VerifC14Cache
+	UpdatedFeederIDs []string
+	MaxNonce         int32
+	ThresholdA       int32
+	ThresholdB       int32
+	MaxDetID         int32
+	Mode             int32
+}
+
+// VerifC14DumpMem returns a canonical dump of the process-local oracle state.
+func VerifC14DumpMem() VerifC14Mem {
+	return VerifC14Mem{
+		Agc:              agc.VerifC14Dump(),
+		AgcCheckTx:       agcCheckTx.VerifC14Dump(),
+		Cache:            cs.VerifC14Dump(),
+		UpdatedFeederIDs: append([]string(nil), updatedFeederIDs...),
+		MaxNonce:         common.MaxNonce,
+		ThresholdA:       common.ThresholdA,
+		ThresholdB:       common.ThresholdB,
+		MaxDetID:         common.MaxDetID,
+		Mode:             int32(common.Mode),
+	}
+}
+
+// VerifC14DropMem forgets every package-level singleton of the oracle keeper, exactly what a process
+// exit does: the next GetCaches/GetAggregatorContext call has to rebuild from the committed store.
+func VerifC14DropMem() {
+	agc = nil
+	agcCheckTx = nil
+	cs = nil
+	updatedFeederIDs = nil
+	common.VerifC14ResetGlobals()
+}
